@@ -153,7 +153,7 @@ func (vc *VC) define(prefix string, t Term) Term {
 	if len(t.S) < 24 && !strings.Contains(t.S, "ite") {
 		return t
 	}
-	if strings.Contains(t.S, "q_") || strings.Contains(t.S, "p!") || strings.Contains(t.S, "h!") {
+	if hasFreeBound(t.S) {
 		return t // mentions bound variables / spec-function formals: cannot be named globally
 	}
 	n := vc.freshName(prefix)
